@@ -4,7 +4,7 @@ Only files whose text changes are touched (so make rebuilds only what changed).
 Prints one line per untranslatable root; exit status 0 either way."""
 import os, sys
 sys.path.insert(0, os.path.dirname(os.path.abspath(__file__)))
-import py2coq, roots, tables, xfer
+import py2coq, roots, tables, xfer, keys
 
 
 def regen(root='/repo', out=None):
@@ -16,6 +16,9 @@ def regen(root='/repo', out=None):
     xtext, xfailed = xfer.gen_xfer(root)
     files['X_xfer'] = xtext
     failed.update(xfailed)
+    ktext, kfailed = keys.gen_keys(root)
+    files['K_keys'] = ktext
+    failed.update(kfailed)
     os.makedirs(out, exist_ok=True)
     changed = []
     for stem, text in files.items():
